@@ -175,12 +175,14 @@ class VEPRecord():
                     # way (e.g., C -> TACC), which needs to be converted into
                     # start-inclusion (A -> ATAC) for variants on + strand genes.
                     ref = str(seq.seq[alt_start])
-                    if ref == allele[-1]:
+                    if ref == allele[-1] and alt_start > 0:
                         alt_start -= 1
                         alt_end = alt_start + 1
                         ref = str(seq.seq[alt_start])
                         alt = ref + allele[:-1]
-                    elif ref == allele[0]:
+                    elif ref in (allele[0], allele[-1]):
+                        # start-inclusion, or end-inclusion on the first base of
+                        # the gene where there is no upstream base to anchor on.
                         ref = str(ref)
                         alt = allele
                     else:
